@@ -168,8 +168,9 @@ Arguments gate {St Arg Tgt Usr Idn Pay} resolve ident_of effect st a.
 Arguments gated_atomic {St Arg Tgt Usr Idn Pay} resolve ident_of effect _ st a u _.
 
 Section Model.
-(* op_create.go does not copy the files of the create operation into the first comment on the
-   pinned tree; a repair is pending. The harness probes the linked code and passes what it does. *)
+(* op_create.go of the pinned tree did not copy the files of the create operation into the first
+   comment; the repair ("keep the files of the create operation in the first comment") changes that.
+   The harness probes the linked code on every run and passes what it does. *)
 Variable create_keeps_files : bool.
 
 Definition apply (s : snap) (o : op) : snap :=
